@@ -7,6 +7,7 @@ import (
 	"os/exec"
 	"path/filepath"
 	"sort"
+	"strconv"
 	"strings"
 	"sync"
 	"time"
@@ -17,7 +18,7 @@ import (
 //      (a difference is a defect of the checker → exit 2);
 //  (2) a mutation self-test of this property's rules: catalogue mutants (single-site rewrites of the current
 //      tree), reverts of the fix: commits, and the seeded changes of independent sub-agents are each applied to a
-//      scratch copy outside /repo and /verif, analysed in their own process (at most 6 at a time) and must be
+//      scratch copy outside /repo and /verif, analysed in their own process (at most 6 at a time, or $VERIF_THOROUGH_JOBS) and must be
 //      reported. Survivors and mutants whose anchor no longer exists are listed; they never change the exit code
 //      (they say something about the checker, not about the property).
 
@@ -224,7 +225,11 @@ func thoroughImpl(spec *PropSpec, o *checkOpts, fails []Obl) (map[string]interfa
 		}
 	}
 
-	sem := make(chan struct{}, 6)
+	par := 6
+	if v, err := strconv.Atoi(os.Getenv("VERIF_THOROUGH_JOBS")); err == nil && v > 0 && v <= 16 {
+		par = v
+	}
+	sem := make(chan struct{}, par)
 	var wg sync.WaitGroup
 	for _, j := range jobs {
 		wg.Add(1)
